@@ -235,3 +235,6 @@ def run(ctx: Ctx, rep: Report, tier: str):
     from rules.common import start_rechecks_after_join
     rep.rule("C15.R4", "threads per manager: Runnable.start creates the loop thread only past an is_alive() test that follows every join of the old thread", 1)
     section(rep, lambda: start_rechecks_after_join(ctx, rep, "C15.R4"))
+    from rules.common import wait_joins_unless_own_thread
+    rep.rule("C15.R5", "a stopped engine is a joined engine: Runnable.wait joins the service thread whenever another thread runs it, also when a stop is already pending", 1)
+    section(rep, lambda: wait_joins_unless_own_thread(ctx, rep, "C15.R5"))
